@@ -83,6 +83,8 @@ CTX_N = {
     # the target is also an operand of the call; READ targets while an empty DATA item is present (filter path)
     "assign-self": "10 X = {e}", "assign-self-y": "10 Y = {e}", "read-sub-empty": "10 READ Q ( {e} )\n20 DATA 5 , , 7",
     "read-sub-empty2": "10 READ W , Q ( {e} )\n20 DATA , 5",
+    "read-two-subs-empty": "10 READ Q ( {e} ) , Q ( INT ( W ) ) , Q ( INT ( V ) )\n20 DATA 5 , , 7 , 8",
+
     # the value operand of POKE, at ordinary addresses and at the two speed-poke addresses (whose value the tool folds away)
     "poke-value": "10 POKE 1024 , {e}", "poke-fast": "10 POKE 65497 , {e}", "poke-slow": "10 POKE 65496 , {e}", "poke-fast-hex": "10 POKE &HFFD9 , {e}",
     "sound-second": "10 SOUND 1 , {e}", "set-colour": "10 SET ( 1 , 2 , {e} )", "palette": "10 PALETTE {e} , 1", "hcolor": "10 HCOLOR 1 , {e}",
